@@ -300,6 +300,8 @@ reg("erf", "erf", lambda c, x: c.erf(M(c, x)), r_erf, lambda rng, p: [gx(rng, Fr
 reg("erf_small", "erf", lambda c, x: c.erf(M(c, x)), r_erf, lambda rng, p: [Fraction(rng.randint(1, 255), 2 ** rng.randint(12, 60)) * rng.choice([1, 1, -1])], w=2.0, regime="integral", **IQ)
 reg("erfc_small", "erfc", lambda c, x: c.erfc(M(c, x)), r_erfc_small, lambda rng, p: [gx(rng, -4, 1)], w=1.0, regime="integral", **IQ)
 reg("erfc_tail", "erfc", lambda c, x: c.erfc(M(c, x)), gen=lambda rng, p: [gx(rng, 1, rng.choice([3, 8, 20]))], build=b_erfc_tail, w=1.5, regime="tail", **IQ)
+reg("erfc_tail_frac", "erfc", lambda c, x: c.erfc(M(c, x)),
+    gen=lambda rng, p: [Fraction(rng.randint(4, 12)) + 1 - Fraction(rng.randint(1, 100), 1024)], build=b_erfc_tail, w=1.5, regime="tail", **IQ)
 reg("erfi", "erfi", lambda c, x: c.erfi(M(c, x)), r_erfi, lambda rng, p: [gx(rng, Fraction(1, 64), 5, neg=True)], w=1.0, regime="integral", **IQ)
 reg("ncdf", "ncdf", lambda c, x: c.ncdf(M(c, x)), r_ncdf, lambda rng, p: [gx(rng, -1, 7)], w=1.0, regime="integral", **IQ)
 reg("ncdf_tail", "ncdf", lambda c, x: c.ncdf(M(c, x)), gen=lambda rng, p: [-gx(rng, 1, rng.choice([4, 12]))], build=b_ncdf_tail, w=0.8, regime="tail", **IQ)
@@ -324,6 +326,9 @@ reg("e1_tail", "e1", lambda c, x: c.e1(M(c, x)), gen=lambda rng, p: [1, gx(rng, 
 K[-1].call = lambda c, n, x: c.e1(M(c, x))
 reg("expint_tail", "expint", lambda c, n, x: c.expint(n, M(c, x)), gen=lambda rng, p: [rng.randint(1, 8), gx(rng, Fraction(1, 4), rng.choice([4, 30]))],
     build=b_expint_tail, w=1.2, regime="tail", **IQ)
+reg("expint_tail_bign", "expint", lambda c, n, x: c.expint(n, M(c, x)),
+    gen=lambda rng, p: (lambda n: [n, Fraction(rng.randint(3 * n, 5 * n), 2)])(rng.randint(14, 28)),
+    build=b_expint_tail, w=0.8, regime="tail-large-order", **IQ)
 reg("erfinv", "erfinv", lambda c, x: c.erfinv(M(c, x)), gen=lambda rng, p: [gx(rng, Fraction(1, 64), Fraction(9, 10), neg=True)], build=b_erfinv,
     w=1.0, regime="inverse", precs=[20, 53], params=iparams)
 MM = "metamorphic"
